@@ -54,3 +54,40 @@ def rank_only_in_slice(res, rel, cls, fn, attrs):
     add_direct(res, name, "frame", not bad, where=f"{rel}:{f.lineno}",
                note=f"self.{{{','.join(attrs)}}} is read only inside the rank-split slice, so the draw before it is the same on every rank",
                detail="; ".join(bad))
+
+
+def class_defines(eng, clsid, name):
+    """does a repo class in the MRO of clsid (before any library class) define `name`?"""
+    for c in eng.mro(clsid):
+        if "::" not in c:
+            continue
+        m, cd = eng.class_def(c)
+        if any(isinstance(n, ast.FunctionDef) and n.name == name for n in cd.body):
+            return c
+    return None
+
+
+def subset_constructible(res, rel="kappadata/datasets/kd_subset.py", cls="KDSubset"):
+    """torch.utils.data.Subset.__init__ (installed version, read at run time) raises NotImplementedError when the
+    subclass overrides __getitem__ without __getitems__: the KDSubset family must not fall under that rule"""
+    from .engine import Engine
+    import inspect
+    name = f"{rel}::{cls}.__init__:constructible"
+    try:
+        import torch.utils.data as tud
+        src = inspect.getsource(tud.Subset.__init__)
+        rule = "__getitems__ is Subset.__getitems__" in src and "NotImplementedError" in src
+    except Exception as ex:      # pragma: no cover
+        add_direct(res, name, "frame", False, undecided=True, detail=f"cannot read torch Subset: {ex}")
+        return
+    eng = Engine()
+    clsid = f"{rel}::{cls}"
+    gi = class_defines(eng, clsid, "__getitem__")
+    gis = class_defines(eng, clsid, "__getitems__")
+    ok = (not rule) or gi is None or gis is not None
+    res.trusted.add("lib:torch.utils.data.Subset.__init__ (rule read from the installed torch source at run time)")
+    add_direct(res, name, "frame", ok, where=f"{rel}",
+               note="KDSubset(dataset, indices) returns normally under the installed torch's Subset.__init__ rule",
+               detail="" if ok else f"{gi} overrides __getitem__, no class of the family defines __getitems__, "
+                                    "and the installed torch raises NotImplementedError in that case",
+               model=None if ok else {"construct": "KDSubset(range(3), [0])"})
